@@ -781,16 +781,16 @@ func (x *tr) expr(e ast.Expr) string {
 				if k := x.kindOf(z.Args[0]); k == "bytes" || strings.HasPrefix(k, "list ") {
 					return "(Z.of_nat (List.length " + x.expr(z.Args[0]) + "))"
 				}
-			case "int", "int64":
-				// conversion between integer types the model does not bound (DESIGN.md 2.1)
-				if len(z.Args) == 1 && x.kindOf(z.Args[0]) == "Z" {
-					return x.expr(z.Args[0])
-				}
 			}
 			if tv, ok := x.p.TypesInfo.Types[z.Fun]; ok && tv.IsType() && len(z.Args) == 1 {
-				// conversion T(x) between types with the same translation
-				if k := x.coqType(tv.Type); k != "?" && k == x.kindOf(z.Args[0]) && k == "Z" {
-					return x.expr(z.Args[0])
+				// conversion T(x) between integer types: the identity on Z (DESIGN.md 2.1: int, Level,
+				// Flags are unbounded), but only where Go cannot wrap: to int / int64 or to a type of the
+				// same underlying kind as the argument
+				if b, ok := tv.Type.Underlying().(*types.Basic); ok && x.coqType(tv.Type) == "Z" && x.kindOf(z.Args[0]) == "Z" {
+					ab, _ := x.p.TypesInfo.TypeOf(z.Args[0]).Underlying().(*types.Basic)
+					if b.Kind() == types.Int || b.Kind() == types.Int64 || (ab != nil && ab.Kind() == b.Kind()) {
+						return x.expr(z.Args[0])
+					}
 				}
 			}
 			x.bad(z, "call outside the fragment ("+key+")")
